@@ -38,6 +38,11 @@ impl Engine for ConcEngine {
 
     fn gen_case(&mut self, rng: &mut Prng, tier: Tier, idx: usize) -> Vec<String> {
         let big = tier == Tier::Thorough;
+        if idx % 4 == 3 {
+            // key identity is (WHOLE id, type): ids that share trailing segments, and one id under several types, on many fresh
+            // caches (every cache has its own hash seed: a comparison that is too coarse only shows on a hash collision)
+            return vec![format!("keys {}", if big { 30000 } else { 4000 })];
+        }
         if idx % 2 == 0 {
             vec![format!("race {} {} {} {}", rng.range(2, 8), if big { 300 } else { 60 }, rng.below(3), if rng.chance(1, 2) { "any" } else { "direct" })]
         } else {
@@ -141,6 +146,36 @@ impl Engine for ConcEngine {
                     rec.nontrivial = true;
                     for b in bad.iter().take(3) { rec.oracle_fail(format!("presence-flipped {b}")); }
                     rec.op(format!("conc.probe {readers} {writers}"), if bad.is_empty() { "stable" } else { "unstable" });
+                }
+                "keys" => {
+                    let caches = n(1).clamp(1, 200_000);
+                    let mut bad: Vec<String> = vec![];
+                    let ids = ["world.items.asset1", "items.asset1", "asset1", "x.asset1", "a.b.c.d", "b.c.d", "c.d", "d", ""];
+                    for k in 0..caches {
+                        let local = assets_manager::LocalAssetCache::with_source(MemSource::new(false));
+                        let shared = AssetCache::with_source(MemSource::new(false));
+                        macro_rules! round { ($c:expr, $fe:expr) => {{
+                            let c = $c;
+                            let mut seen: Vec<(String, usize)> = vec![];
+                            for (j, id) in ids.iter().enumerate() {
+                                let h = c.get_or_insert::<u64>(id, j as u64);
+                                if h.id().as_str() != *id || *h.read() != j as u64 { bad.push(format!("{} cache {k}: get_or_insert({id:?}) handed out the entry of {:?} (value {})", $fe, h.id().as_str(), *h.read())); }
+                                let p = h as *const _ as usize;
+                                if let Some((other, _)) = seen.iter().find(|(_, q)| *q == p) { bad.push(format!("{} cache {k}: ids {id:?} and {other:?} share one entry", $fe)); }
+                                seen.push((id.to_string(), p));
+                                // the same id under another type is another key
+                                if c.contains::<u32>(id) { bad.push(format!("{} cache {k}: contains::<u32>({id:?}) is true, only a u64 was stored", $fe)); }
+                            }
+                            for (id, p) in &seen { match c.get_cached::<u64>(id) { Some(h) if h as *const _ as usize == *p => {} _ => bad.push(format!("{} cache {k}: get_cached({id:?}) does not return the entry that was inserted", $fe)) } }
+                        }}; }
+                        round!(&local, "LocalAssetCache");
+                        round!(&shared, "AssetCache");
+                        if bad.len() > 3 { break; }
+                    }
+                    rec.stat("keys/suffix-ids-and-types");
+                    rec.nontrivial = true;
+                    for b in bad.iter().take(3) { rec.oracle_fail(format!("racers-diverge key identity: {b}")); }
+                    rec.op(format!("conc.keys {caches}"), if bad.is_empty() { "distinct" } else { "confused" });
                 }
                 _ => rec.op(line.clone(), "bad-op"),
             }
